@@ -152,6 +152,10 @@ def handlePrims : Handler := fun op j =>
       | .ok d => pokDate d | .error _ => errStr "OverflowError")
   | "next_id" => pure (match GenV1.pyNextId (← getStr j "s") with
       | .ok s => okStr s | .error .overflow => errStr "OverflowError" | .error _ => unsupported)
+  | "re_sub" =>
+    -- the generic `re.sub` of Model/EffK.lean (pattern fragment: literals, \b, \B, groups, alternation); `\w` = Python's on the test alphabet
+    pure (match TieK.reSub (fun c => isAlnum c || c == '_' || c == 'é') (← getStr j "pat") (← getStr j "rep") (← getStr j "s") with
+      | some r => okStr r | none => Json.mkObj [("refused", Json.num 1)])
   | other => .error s!"unknown primitive {other}"
 
 end BV.Drv
